@@ -91,6 +91,7 @@ type thread struct {
 	timer     *Timer
 	wake      int64
 	spinEpoch uint64
+	burn      int
 	resWrite  bool
 	resOK     bool
 	resVal    uint64
@@ -126,6 +127,7 @@ type Config struct {
 	FreezeAt  int     `json:"freeze_at"` // -1: never; the probe then starts when all workers are done
 	Probe     int     `json:"probe"`     // thread id of the probe, -1: none
 	TickPct   int     `json:"tick_pct,omitempty"`
+	SpinBurn  int     `json:"spin_burn,omitempty"` // a spinner may retry this many times without any progress by others
 	MaxSteps  int     `json:"max_steps"`
 	Script    []int16 `json:"-"`
 	Strict    bool    `json:"-"`
@@ -166,6 +168,7 @@ type Result struct {
 	StallsFired int
 	Ticks       int
 	FairRounds  int
+	Burns       int
 	Froze       bool
 	SimNs       int64
 	Panics      []string // "t<id>: msg\nstack"
@@ -192,6 +195,7 @@ type Sim struct {
 	res    Result
 	prio   [MaxThreads]int
 	pctAt  []int
+	burner int
 }
 
 var S Sim
@@ -530,7 +534,9 @@ func (s *Sim) canRun(t int) bool {
 	case KRLock:
 		return th.lock.Writer == 0
 	case KGosched:
-		return th.spinEpoch != s.wEpoch
+		// burning: ONE thread per run (the first that spins without progress) may retry up to
+		// SpinBurn times although nothing changed; everybody else waits for progress
+		return th.spinEpoch != s.wEpoch || (s.res.Burns < s.cfg.SpinBurn && (s.burner < 0 || s.burner == t))
 	case KTimerRecv:
 		return th.timer.buffered
 	case KSleep:
@@ -597,6 +603,11 @@ func (s *Sim) dispatch(t int) {
 			th.lock.Readers--
 		}
 	case KGosched:
+		if th.spinEpoch == s.wEpoch {
+			th.burn++ // a retry that cannot observe anything new ("burning" attempts);
+			s.res.Burns++ // the budget is per run and never refilled
+			s.burner = t
+		}
 		th.spinEpoch = s.wEpoch
 	}
 	addr := th.addr
@@ -639,6 +650,7 @@ func Run(cfg Config, n int, body func(int)) Result {
 	s.hash = 14695981039346656037
 	s.turn = Ctl
 	s.cur = Ctl
+	s.burner = -1
 	s.active = true
 	for t := 0; t < n; t++ {
 		s.th[t].state = stParked
